@@ -8,7 +8,7 @@
    Z.to_nat (a size < 1 raises ValueError on both sides).  Bit lists are lists of the ints 0/1 in the implementation
    and lists of booleans in the model: the link of value_from_bitlist goes through `map b2z`. *)
 From QV Require Import Translate.PyPrelude Translate.PyPrelude_proofs Translate.C15Aux.
-From QV Require Import Jssp.DomainWall.
+From QV Require Import Jssp.DomainWall Jssp.Encoder Jssp.Encoder_proofs.
 From QVGen Require Import C15Gen.
 Open Scope Z_scope.
 
@@ -530,3 +530,147 @@ Proof.
   - rewrite Hn. eapply st_nq_state_of_enc, He.
 Qed.
 Print Assumptions link_Enc_makespan_term_after_prepare.
+
+(* ------------------------------------------------------------------ _early_start_term
+   The linear early-start penalty: every start time but the earliest of every variable, weighted by its position over
+   the total number of such positions.  The implementation walks the VALUES of _operation_start_variables (a dict:
+   insertion order, which _prepare_encoding makes the order of e_vars) and skips position 0 with `continue`;
+   `1 / max_optimization_value` is qdiv (ZeroDivisionError when no variable has a second start time and a term is
+   nevertheless requested — never reached then, because the inner loops are empty; the empty sum raises QiskitError on
+   both sides).  len(values) - 1 is var_nq for a non-empty value list (every constructed variable has one). *)
+Lemma q_one_shape x i : (x * inject_Z 1 * inject_Z i)%Q = (x * inject_Z i)%Q.
+Proof. destruct x as [n d]. unfold Qmult, inject_Z. cbn [Qnum Qden]. f_equal; lia. Qed.
+
+Lemma early_inner maxv v st : forall vals k acc, (1 <= k)%nat ->
+  py_foldM (fun '(local_terms, st) '(i, value_) =>
+      if Z.eqb i 0 then Ok (local_terms, st)
+      else
+        do q1_ <- qdiv (inject_Z 1) (inject_Z maxv);
+        do v2_ <- gen_DWV_value_term (ghost v) value_ (st_nq st);
+        let local_terms := (local_terms ++ [OpScale (q1_ * inject_Z i)%Q v2_])%list in
+        Ok (local_terms, st))
+    (combine (map Z.of_nat (seq k (List.length vals))) vals) (acc, st)
+  = do ts <- mapM (early_local (Z.to_nat (st_nq st)) maxv v) (combine (seq k (List.length vals)) vals); Ok ((acc ++ ts)%list, st).
+Proof.
+  match goal with |- forall vals k acc, _ -> py_foldM ?F _ _ = _ => set (F0 := F) end.
+  induction vals as [|t r IH]; intros k acc Hk; [cbn; now rewrite app_nil_r|].
+  cbn [List.length seq map combine py_foldM mapM]. unfold F0 at 1. cbv zeta.
+  destruct (Z.eqb_spec (Z.of_nat k) 0) as [E|_]; [lia|].
+  unfold early_local at 1. cbn [fst snd].
+  destruct (Z.eqb_spec maxv 0) as [->|Hm]; [reflexivity|].
+  rewrite (qdiv_shape _ _ Hm). cbn [bind]. rewrite link_DWV_value_term. change (value_term (ghost v)) with (value_term v).
+  destruct (value_term v t (Z.to_nat (st_nq st))) as [vt|e]; cbn [bind]; [|reflexivity].
+  rewrite q_one_shape.
+  rewrite (IH (S k) _ (le_S _ _ Hk)). destruct (mapM _ (combine _ r)) as [ts|e]; cbn [bind]; [|reflexivity].
+  now rewrite <- app_assoc.
+Qed.
+
+Lemma early_var maxv v st acc :
+  py_foldM (fun '(local_terms, st) '(i, value_) =>
+      if Z.eqb i 0 then Ok (local_terms, st)
+      else
+        do q1_ <- qdiv (inject_Z 1) (inject_Z maxv);
+        do v2_ <- gen_DWV_value_term (ghost v) value_ (st_nq st);
+        let local_terms := (local_terms ++ [OpScale (q1_ * inject_Z i)%Q v2_])%list in
+        Ok (local_terms, st))
+    (py_enumerate (v_values v)) (acc, st)
+  = do ts <- mapM (early_local (Z.to_nat (st_nq st)) maxv v) (tl (enumerate (v_values v))); Ok ((acc ++ ts)%list, st).
+Proof.
+  unfold py_enumerate, enumerate. destruct (v_values v) as [|x r]; [cbn; now rewrite app_nil_r|].
+  cbn [List.length seq map combine tl]. cbn [py_foldM]. cbv zeta. cbn [Z.of_nat Z.eqb].
+  exact (early_inner maxv v st r 1%nat acc (le_n 1)).
+Qed.
+
+Lemma early_outer maxv st : forall vars acc,
+  py_foldM (fun '(local_terms, st) start_variable =>
+      do l3_ <-
+        py_foldM (fun '(local_terms, st) '(i, value_) =>
+          if (Z.eqb i (0%Z))
+          then
+            Ok (local_terms, st)
+          else
+            do q1_ <- qdiv (inject_Z (1%Z)) (inject_Z maxv);
+            do v2_ <- gen_DWV_value_term start_variable value_ (st_nq st);
+            let local_terms := (local_terms ++ [(OpScale (q1_ * (inject_Z i))%Q v2_)])%list in
+            Ok (local_terms, st)) (py_enumerate (gen_DWV_values start_variable)) (local_terms, st);
+      let '(local_terms, st) := l3_ in
+      Ok (local_terms, st)) (map ghost vars) (acc, st)
+  = do per <- mapM (fun v => mapM (early_local (Z.to_nat (st_nq st)) maxv v) (tl (enumerate (v_values v)))) vars;
+    Ok ((acc ++ concat per)%list, st).
+Proof.
+  match goal with |- forall vars acc, py_foldM ?F _ _ = _ => set (F0 := F) end.
+  induction vars as [|v r IH]; intros acc; [cbn; now rewrite app_nil_r|].
+  cbn [map py_foldM mapM]. unfold F0 at 1. cbv zeta. unfold gen_DWV_values. change (v_values (ghost v)) with (v_values v).
+  match goal with |- context [py_foldM ?F (py_enumerate (v_values v)) (acc, st)] =>
+    replace (py_foldM F (py_enumerate (v_values v)) (acc, st))
+      with (do ts <- mapM (early_local (Z.to_nat (st_nq st)) maxv v) (tl (enumerate (v_values v))); Ok ((acc ++ ts)%list, st))
+      by (symmetry; exact (early_var maxv v st acc))
+  end.
+  destruct (mapM (early_local _ maxv v) _) as [ts|e]; cbn [bind]; [|reflexivity].
+  rewrite IH. destruct (mapM _ r) as [per|e]; cbn [bind concat]; [|reflexivity]. now rewrite app_assoc.
+Qed.
+
+Lemma fold_left_add_shift l : forall a, fold_left Z.add l a = a + fold_left Z.add l 0.
+Proof. induction l as [|x r IH]; intros a; cbn [fold_left]; [lia|]. rewrite (IH (a + x)). rewrite (IH (0 + x)). ring. Qed.
+
+Lemma early_maxv vars : (forall v, In v vars -> v_values v <> []) ->
+  py_sum_Z (map (fun variable => py_len (gen_DWV_values variable) - 1) (map ghost vars)) = Z.of_nat (sum_nq vars).
+Proof.
+  unfold py_sum_Z. induction vars as [|v r IH]; intros Hne; [reflexivity|].
+  change (sum_nq (v :: r)) with (var_nq v + sum_nq r)%nat. cbn [map fold_left]. rewrite fold_left_add_shift, IH by (intros w Hw; apply Hne; now right).
+  unfold gen_DWV_values, py_len, var_nq. change (v_values (ghost v)) with (v_values v).
+  assert (H := Hne v (or_introl eq_refl)). destruct (v_values v); [congruence|]. cbn [List.length]. lia.
+Qed.
+
+Lemma link_Enc_early_start_term : forall e st,
+  py_dict_values (st_vars st) = map ghost (e_vars e) ->
+  (forall v, In v (e_vars e) -> v_values v <> []) ->
+  st_nq st = Z.of_nat (e_nq e) ->
+  gen_Enc_early_start_term st = do t <- early_start_term e; Ok (t, st).
+Proof.
+  intros e st Hv Hne Hq. unfold gen_Enc_early_start_term, early_start_term. cbv zeta.
+  rewrite Hv, (early_maxv _ Hne).
+  match goal with |- bind ?X _ = _ =>
+    replace X with (do per <- mapM (fun v => mapM (early_local (Z.to_nat (st_nq st)) (Z.of_nat (sum_nq (e_vars e))) v) (tl (enumerate (v_values v)))) (e_vars e);
+                    Ok (([] ++ concat per)%list, st))
+      by (symmetry; exact (early_outer (Z.of_nat (sum_nq (e_vars e))) st (e_vars e) []))
+  end.
+  rewrite Hq, Nat2Z.id.
+  destruct (mapM _ (e_vars e)) as [per|err]; cbn [bind app]; [|reflexivity].
+  destruct (sum_ops (concat per)); reflexivity.
+Qed.
+Print Assumptions link_Enc_early_start_term.
+
+Lemma dict_set_absent {V} (d : list (operation * V)) k x : ~ In k (map fst d) -> py_dict_set op_eqb d k x = (d ++ [(k, x)])%list.
+Proof.
+  induction d as [|kv t IH]; intros Hk; [reflexivity|]. cbn [py_dict_set app].
+  rewrite op_eqb_neq by (intros E; apply Hk; left; exact E). f_equal. apply IH. intros H. apply Hk. now right.
+Qed.
+
+Lemma vars_values vs : NoDup (map v_op vs) -> forall st, (forall k, In k (map v_op vs) -> ~ In k (map fst (st_vars st))) ->
+  map snd (st_vars (fold_left add_var vs st)) = (map snd (st_vars st) ++ map ghost vs)%list.
+Proof.
+  induction vs as [|w r IH]; intros Hnd st Hfresh; [cbn; now rewrite app_nil_r|].
+  cbn [map] in Hnd. inversion Hnd as [|? ? Hnot Hnd']; subst. cbn [fold_left].
+  assert (Hset : st_vars (add_var st w) = (st_vars st ++ [(v_op w, ghost w)])%list).
+  { cbn [add_var st_vars]. apply dict_set_absent, Hfresh. now left. }
+  rewrite IH; [| exact Hnd' |].
+  - rewrite Hset, map_app. cbn [map snd]. now rewrite <- app_assoc.
+  - intros k Hk. rewrite Hset, map_app. cbn [map fst]. intros H. apply in_app_or in H as [H|[<-|[]]].
+    + revert H. apply Hfresh. now right.
+    + contradiction.
+Qed.
+
+Lemma link_Enc_early_start_term_after_prepare : forall I L e st, prepare_encoding I L = Ok e ->
+  NoDup (map v_op (e_vars e)) -> reached_from_prepared e st ->
+  gen_Enc_early_start_term st = do t <- early_start_term e; Ok (t, st).
+Proof.
+  intros I L e st He Hnd [Hv [Hn _]]. apply link_Enc_early_start_term.
+  - rewrite Hv. unfold py_dict_values, state_of_enc, set_prepared. cbn [st_vars].
+    rewrite (vars_values _ Hnd st_init); [reflexivity|]. intros k _ [].
+  - intros v Hin. pose proof (prepare_encoding_Ok_limit _ _ _ He) as Hlim.
+    rewrite (prepare_encoding_explicit _ _ Hlim) in He. injection He as <-. cbn [e_vars e_jobs] in Hin.
+    destruct (vars_of_jobs_nq I L v Hlim Hin) as [j [_ [_ Hlen]]]. intros E. rewrite E in Hlen. discriminate.
+  - rewrite Hn. eapply st_nq_state_of_enc, He.
+Qed.
+Print Assumptions link_Enc_early_start_term_after_prepare.
